@@ -22,7 +22,7 @@ import bounded as bounded_mod
 import kani
 import vpenv
 
-RLIMIT = '40'
+RLIMIT = '100'
 
 
 def load_props():
